@@ -33,6 +33,7 @@ func (e *ExitError) Error() string {
 }
 
 type ProjectRunner struct {
+	opMutex           sync.Mutex // serialises start / restart / scale / update requests
 	procConfMutex     sync.Mutex
 	project           *types.Project
 	logsMutex         sync.Mutex
@@ -479,7 +480,13 @@ func (p *ProjectRunner) removeRunningProcess(process *Process) {
 	p.runProcMutex.Unlock()
 }
 
+// StartProcess, RestartProcess, ScaleProcess and the update requests change which
+// instances and which replicas exist in several steps; opMutex makes each of them atomic
+// with respect to the others (a start racing with the renames of a scale request used to
+// register an instance under a name that was just renamed away).
 func (p *ProjectRunner) StartProcess(name string) error {
+	p.opMutex.Lock()
+	defer p.opMutex.Unlock()
 	proc := p.getRunningProcess(name)
 	if proc != nil && !proc.isDone() {
 		log.Error().Msgf("Process %s is already running", name)
@@ -544,6 +551,10 @@ func (p *ProjectRunner) RestartProcess(name string) error {
 		time.Sleep(proc.getBackoff())
 	}
 
+	// only the launch of the new instance is serialised with the other requests: stopping
+	// the old one may take as long as the process takes to die
+	p.opMutex.Lock()
+	defer p.opMutex.Unlock()
 	if processConfig, ok := p.getProcessConfig(name); ok {
 		return p.runProcess(&processConfig)
 	}
@@ -787,6 +798,12 @@ func (p *ProjectRunner) UnSubscribeLogger(name string, observer pclog.LogObserve
 }
 
 func (p *ProjectRunner) ScaleProcess(name string, scale int) error {
+	p.opMutex.Lock()
+	defer p.opMutex.Unlock()
+	return p.scaleProcess(name, scale)
+}
+
+func (p *ProjectRunner) scaleProcess(name string, scale int) error {
 	if scale < 1 {
 		err := fmt.Errorf("cannot scale process %s to a negative or zero value %d", name, scale)
 		log.Err(err).Msg("scale failed")
@@ -1096,6 +1113,8 @@ func NewProjectRunner(opts *ProjectOpts) (*ProjectRunner, error) {
 }
 
 func (p *ProjectRunner) UpdateProject(project *types.Project) (map[string]string, error) {
+	p.opMutex.Lock()
+	defer p.opMutex.Unlock()
 	newProcs := make(map[string]types.ProcessConfig)
 	delProcs := make(map[string]types.ProcessConfig)
 	updatedProcs := make(map[string]types.ProcessConfig)
@@ -1139,7 +1158,7 @@ func (p *ProjectRunner) UpdateProject(project *types.Project) (map[string]string
 	}
 	//Update processes
 	for name, proc := range updatedProcs {
-		err := p.UpdateProcess(&proc)
+		err := p.updateProcess(&proc)
 		if err != nil {
 			log.Err(err).Msgf("Failed to update process %s", name)
 			errs = append(errs, err)
@@ -1172,6 +1191,12 @@ func (p *ProjectRunner) ReloadProject() (map[string]string, error) {
 	return status, nil
 }
 func (p *ProjectRunner) UpdateProcess(updated *types.ProcessConfig) error {
+	p.opMutex.Lock()
+	defer p.opMutex.Unlock()
+	return p.updateProcess(updated)
+}
+
+func (p *ProjectRunner) updateProcess(updated *types.ProcessConfig) error {
 	isScaleChanged := false
 	validateProbes(updated.LivenessProbe)
 	validateProbes(updated.ReadinessProbe)
@@ -1200,7 +1225,7 @@ func (p *ProjectRunner) UpdateProcess(updated *types.ProcessConfig) error {
 	p.addProcessAndRun(*updated)
 
 	if isScaleChanged {
-		err = p.ScaleProcess(updated.ReplicaName, updated.Replicas)
+		err = p.scaleProcess(updated.ReplicaName, updated.Replicas)
 		if err != nil {
 			log.Err(err).Msgf("Failed to scale process %s", updated.Name)
 			return err
